@@ -27,6 +27,8 @@ Record cfg_case := {
   cc_cands : list (str * str);             (* key, algorithm *)
   cc_names : list str;
   cc_origins : list str;
+  cc_env : option transport_kind;          (* MERCURE_TRANSPORT_URL in the environment (deprecated): consulted by the Caddyfile form only,
+                                              and only when no transport is configured *)
   cc_obs : option cfg_obs }.
 
 Definition tab_key_ok (t : list (str * str * bool)) (a k : str) : bool :=
@@ -40,7 +42,7 @@ Definition model_result (c : cfg_case) : result effective :=
   let ko := tab_key_ok (cc_keytab c) in
   let oo := tab_origin_ok (cc_origtab c) in
   match cc_input c with
-  | CICaddyfile ds => provision ko oo ds
+  | CICaddyfile ds => provision ko oo (match cc_env c with Some k => DTransport k :: ds | None => ds end)   (* lowest priority *)
   | CIJson f => provision_fields ko oo f
   | CILegacy l => provision_legacy ko oo l
   end.
@@ -132,6 +134,30 @@ Definition in_pair_ok (pub : bool) (i : cfg_input) (p : str * str) : bool :=
       str_eqb a (first_nonempty (if pub then l_pub_alg l else l_sub_alg l) (first_nonempty (l_jwt_alg l) s_hs256))
   end.
 
+Definition in_last_transport (i : cfg_input) : option transport_kind :=
+  match i with
+  | CICaddyfile ds => fold_left (fun acc d => match d with DTransport k => Some k | _ => acc end) ds None
+  | CIJson f => f_transport f
+  | CILegacy _ => None
+  end.
+
+(* the (key, algorithm) the configuration asks for, when it can be read off without interpretation: the last directive
+   of the role with an explicit algorithm, or the only one of its role without algorithm (HS256) *)
+Definition in_expected_pair (pub : bool) (i : cfg_input) : option (str * str) :=
+  match i with
+  | CICaddyfile ds =>
+      let l := concat (map (fun d => match jwt_of pub d with Some p => [p] | None => [] end) ds) in
+      match rev l with
+      | (k, Some ((_ :: _) as a)) :: _ => Some (k, a)
+      | [(k, _)] => Some (k, s_hs256)
+      | _ => None
+      end
+  | CIJson f => match (if pub then f_pub f else f_sub f) with Some (k, a) => Some (k, alg_of a) | None => None end
+  | CILegacy l =>
+      Some (first_nonempty (if pub then l_pub_key l else l_sub_key l) (l_jwt_key l),
+            first_nonempty (if pub then l_pub_alg l else l_sub_alg l) (first_nonempty (l_jwt_alg l) s_hs256))
+  end.
+
 Definition implb' (a b : bool) : bool := negb a || b.
 Definition nonempty (s : str) : bool := match s with [] => false | _ => true end.
 
@@ -162,6 +188,16 @@ Definition cfg_spec_ok (c : cfg_case) : bool :=
       (if o_has_sub o
        then forallb (fun p => in_pair_ok false i p && tab_key_ok (cc_keytab c) (snd p) (fst p)) (accepted_keys (cc_cands c) (o_sub_accept o))
        else in_anonymous i) &&
+      (* the configured keys are in effect: a token signed with the configured key and algorithm is accepted *)
+      (match in_expected_pair true i with
+       | Some p => forallb (fun ca => implb' (pair_eqb (fst ca) p) (snd ca)) (combine (cc_cands c) (o_pub_accept o))
+       | None => true end) &&
+      (match in_expected_pair false i with
+       | Some p => negb (o_has_sub o) || negb (nonempty (fst p)) ||
+                   forallb (fun ca => implb' (pair_eqb (fst ca) p) (snd ca)) (combine (cc_cands c) (o_sub_accept o))
+       | None => true end) &&
+      (* a configured transport is the one in effect (the last one written) *)
+      (match in_last_transport i with Some k => tk_eqb (o_transport o) k | None => true end) &&
       (* the cookie consulted is a configured one or the default *)
       (mem_str (o_cookie o) (in_cookie_names i) || str_eqb (o_cookie o) s_default_cookie)
   end.
